@@ -192,10 +192,10 @@ def set_obs(o):
 
 # ----------------------------------------------------------------------------- workload
 def cases(seed, tier):
-    n = 20000 if tier == 'quick' else 200000
+    n = 20000 if tier == 'quick' else 500000
     out = []
     strata = ['near_zero', 'near_antipode', 'poles', 'ra_wrap', 'uniform', 'meridian', 'equator']
-    reps = 2 if tier == 'quick' else 6
+    reps = 2 if tier == 'quick' else 16
     for st in strata:
         for k in range(reps):
             out.append({'kind': 'pairs', 'stratum': st, 'n': n, 'seed': [seed, st, k]})
